@@ -17,7 +17,7 @@ RULE = ("(a) random programs x wild renderings (blank lines, comment lines, trai
         "raw line breaks inside quoted strings) x eol in {LF, CRLF, CR} x parser histories of 0-3 earlier texts; (b) every fault kind "
         "x random position in random valid EEMS models, via API and CLI; distinct by (eol, history kinds, node kinds) / (fault kind, "
         "command, parameter, spread)")
-REQUIRED_COUNTERS = ["tree_nodes_compared", "histories_with_reuse", "fault_linenos_checked", "cli_marker_lines_checked", "eems2_fault_linenos_checked", "runtime_fault_linenos_checked"]
+REQUIRED_COUNTERS = ["tree_nodes_compared", "histories_with_reuse", "fault_linenos_checked", "cli_marker_lines_checked", "eems2_fault_linenos_checked", "runtime_fault_linenos_checked", "lineless_runtime_errors_checked", "cycle_error_linenos_checked"]
 ASSUMPTIONS = ["the head 'Result = Command(' is kept on one line (the statement says where a node starts; the code reports the command-name token)",
                "for a fault inside a multi-line list both the argument's first line and the element's own line are accepted",
                "errors raised during execution with lineno None are not judged", "CR-only texts are generated without comments"]
@@ -72,6 +72,10 @@ def cases(ctx):
         yield {"kind": "runtime", "fault": sorted(RUNTIME)[i % len(RUNTIME)], "rseed": rng.randrange(10 ** 9)}
     for i in range(ctx.n(8, 100)):
         yield {"kind": "dupline", "variant": i % 2, "rseed": rng.randrange(10 ** 9)}
+    for i in range(ctx.n(40, 2000)):
+        yield {"kind": "lineless", "fault": sorted(LINELESS)[i % len(LINELESS)], "rseed": rng.randrange(10 ** 9)}
+    for i in range(ctx.n(60, 3000)):
+        yield {"kind": "cycle", "rseed": rng.randrange(10 ** 9)}
     for i in range(ctx.n(30, 600)):
         yield {"kind": "v2fault", "fault": ["unknown-command", "missing-param", "duplicate-result"][i % 3], "rseed": rng.randrange(10 ** 9)}
     req = None
@@ -392,6 +396,125 @@ def run_runtime(ctx, case):
         _check_cli(ctx, {"table": {"cols": {"X0": {"data": [1, 2, 3, 5], "integer": True}}, "nrows": 4, "missing": None, "file": "in.csv"}}, text, {got}, {"fault": "runtime-" + kind})
 
 
+# errors that the library raises without a line, from a command that is *not* a leaf of the model (something downstream of it is)
+LINELESS = {
+    "weights": ("MismatchedWeights", ['W = WeightedSum(', '    InFieldNames = [A, A],', '    Weights = [1]', ')']),
+    "weights-mean": ("MismatchedWeights", ['W = WeightedMean(', '    InFieldNames = [A],', '', '    Weights = [1, 2]', ')']),
+    "bad-cell": ("InvalidDataFile", ['W = EEMSRead(', '    InFileName = "bad.csv",', '    InFieldName = "X0"', ')']),
+    "empty-file": ("EmptyDataFile", ['W = EEMSRead(InFileName = "empty.csv",', '    InFieldName = "X0")']),
+    "lengths": ("MixedArrayLengths", ['W = NormalizeCat(', '    InFieldName = A,', '    RawValues = [1, 2, 3],', '    NormalValues = [0, 1],', '    DefaultNormalValue = 0', ')']),
+}
+
+
+def run_lineless(ctx, case):
+    """The failing command feeds other commands (it is not what Program.run starts from) and its error is raised without a
+    line: whatever line the error finally carries must lie inside the failing command's own text (or stay absent)."""
+    from mpilot.program import Program
+    rng = random.Random(case["rseed"])
+    kind = case["fault"]
+    want, block = LINELESS[kind]
+    d = ctx.scratch()
+    with open(os.path.join(d, "in.csv"), "w") as f:
+        f.write("X0\n1\n2\n3\n5\n")
+    with open(os.path.join(d, "bad.csv"), "w") as f:
+        f.write("X0\n1\ntwo\n3\n")
+    open(os.path.join(d, "empty.csv"), "w").close()
+    blocks = [['A = EEMSRead(InFileName = "in.csv", InFieldName = "X0")'], list(block)]
+    users = rng.randint(1, 3)
+    prev = "W"
+    for i in range(users):
+        blocks.append(rng.choice([['U%d = Copy(InFieldName = %s)' % (i, prev)], ['U%d = Sum(' % i, '    InFieldNames = [%s, A]' % prev, ')'], ['', 'U%d = Copy(' % i, '', '    InFieldName = %s)' % prev]]))
+        if rng.random() < 0.6:
+            prev = "U%d" % i
+    rng.shuffle(blocks)
+    lines = [ln for b in blocks for ln in b]
+    if rng.random() < 0.5:
+        lines = ["# model", ""] + lines
+    text = "\n".join(lines)
+    start = [k + 1 for k, ln in enumerate(lines) if ln.startswith("W = ")][0]
+    own = set(range(start, start + len(block)))
+    ctx.feature(("lineless", kind, users))
+    err = None
+    try:
+        Program.from_source(text, working_dir=d).run()
+    except Exception as e:
+        err = e
+    if err is None or type(err).__name__ != want:
+        ctx.dontcare("line-less runtime fault %s gave %s" % (kind, type(err).__name__ if err else "no error"))
+        return
+    ctx.count("runtime_fault_linenos_checked")
+    ctx.count("lineless_runtime_errors_checked")
+    got = getattr(err, "lineno", None)
+    if got is not None and got not in own:
+        ctx.fail("runtime-fault:%s:line-of-another-command" % kind, {"got": got, "own_command_lines": sorted(own), "source_line": lines[got - 1] if 0 < got <= len(lines) else None, "text": text})
+
+
+def run_cycle(ctx, case):
+    """Circular references among some commands, with other commands (listed anywhere, also first) that merely use a member of
+    the cycle or are used by one: the recursive-model error names a command that is on a cycle."""
+    from mpilot.program import Program
+    rng = random.Random(case["rseed"])
+    d = ctx.scratch()
+    with open(os.path.join(d, "in.csv"), "w") as f:
+        f.write("X0\n1\n2\n3\n")
+    k = rng.randint(1, 3)                       # cycle C0 -> C1 -> .. -> C0
+    refs = {"Leaf": None}
+    for i in range(k):
+        refs["C%d" % i] = ["C%d" % ((i + 1) % k)]
+        if rng.random() < 0.4:
+            refs["C%d" % i].append("Leaf")       # cycle members may also read acyclic data
+    nusers = rng.randint(1, 3)
+    prev = ["C%d" % rng.randrange(k)]
+    for i in range(nusers):
+        refs["U%d" % i] = [rng.choice(prev)] + (["Leaf"] if rng.random() < 0.3 else [])
+        prev.append("U%d" % i)
+    blocks = {}
+    for name, r in refs.items():
+        if r is None:
+            blocks[name] = ['Leaf = EEMSRead(InFileName = "in.csv", InFieldName = "X0")']
+        elif len(r) == 1 and rng.random() < 0.5:
+            blocks[name] = rng.choice([['%s = Copy(InFieldName = %s)' % (name, r[0])], ['%s = Copy(' % name, '    InFieldName = %s' % r[0], ')']])
+        else:
+            blocks[name] = rng.choice([['%s = Sum(InFieldNames = [%s])' % (name, ", ".join(r))], ['%s = Sum(' % name, '    InFieldNames = [', '        ' + ", ".join(r), '    ]', ')']])
+    order = list(blocks)
+    style = rng.choice(["users-first", "shuffled", "shuffled", "cycle-first"])
+    if style == "shuffled":
+        rng.shuffle(order)
+    elif style == "users-first":
+        order = sorted(order, key=lambda n: (0 if n.startswith("U") else 1 if n == "Leaf" else 2, rng.random()))
+    else:
+        order = sorted(order, key=lambda n: (0 if n.startswith("C") else 1, rng.random()))
+    lines, first_line = [], {}
+    if rng.random() < 0.4:
+        lines += ["# cyclic", ""]
+    for name in order:
+        if rng.random() < 0.3:
+            lines.append("")
+        first_line[name] = len(lines) + 1
+        lines += blocks[name]
+    text = "\n".join(lines)
+    on_cycle = {first_line["C%d" % i] for i in range(k)}
+    ctx.feature(("cycle", k, nusers, style))
+    err = None
+    try:
+        Program.from_source(text, working_dir=d).run()
+    except Exception as e:
+        err = e
+    if err is None or type(err).__name__ != "RecursiveModelStructure":
+        ctx.dontcare("cyclic model gave %s (judged by C14)" % (type(err).__name__ if err else "no error"))
+        return
+    ctx.count("fault_linenos_checked")
+    ctx.count("cycle_error_linenos_checked")
+    got = getattr(err, "lineno", None)
+    if got is None:
+        ctx.fail("fault:cycle:lineno-missing", {"text": text, "cycle_member_lines": sorted(on_cycle)})
+    elif got not in on_cycle:
+        who = [n for n, ln in first_line.items() if ln == got]
+        ctx.fail("fault:cycle:lineno-is-%s" % ("a-command-outside-the-cycle" if who else "no-command-line"), {"got": got, "command_there": who, "cycle_member_lines": sorted(on_cycle), "text": text})
+    elif k > 0 and case["rseed"] % 3 == 0:
+        _check_cli(ctx, {"table": {"cols": {"X0": {"data": [1, 2, 3], "integer": True}}, "nrows": 3, "missing": None, "file": "in.csv"}}, text, on_cycle, {"fault": "cycle"})
+
+
 def run_dupline(ctx, case):
     """Identical lines around the offending one: the CLI must mark the offending line itself (checked through the context
     lines printed before and after the marker)."""
@@ -414,6 +537,10 @@ def run_case(ctx, case):
         return run_runtime(ctx, case)
     if case["kind"] == "dupline":
         return run_dupline(ctx, case)
+    if case["kind"] == "lineless":
+        return run_lineless(ctx, case)
+    if case["kind"] == "cycle":
+        return run_cycle(ctx, case)
     if case["kind"] == "v2fault":
         return run_v2fault(ctx, case)
     return run_fault(ctx, case)
